@@ -84,6 +84,7 @@ RECURSIVE PatVars(_)
 PatVars(p) ==
    CASE p.p = "var"  -> { p.n }
      [] p.p = "some" -> PatVars(p.q)
+     [] p.p = "at"   -> { p.n } \cup PatVars(p.q)                 \* `n @ subpattern` binds n as well
      [] p.p = "tup"  -> UNION { PatVars(p.qs[i]) : i \in DOMAIN p.qs }
      [] OTHER -> {}
 
